@@ -7,8 +7,10 @@ SetHeadExact (every setL1Head leaves exactly the best merged, not removed event 
 reported finalised height), OnlySetHeadWrites, Monotone; plus the same model WITHOUT the timing
 assumption FinalityAfterNotices as an expected violation (documented observation).
 
-Binding: trace validation. The engine runs the REAL l1.Client against a gated scripted
-L1StateProvider and a real Blockchain, records one event per spec action, and TLC decides whether
+Binding: trace validation. The engine runs the REAL l1.Client against (mode 1) a gated scripted
+L1StateProvider and (mode 2) the REAL GethL1StateProvider connected by websocket to an in-process
+go-ethereum rpc.Server that serves the same scripted node (gates in the rpc handlers), and a real
+Blockchain, records one event per spec action, and TLC decides whether
 the concatenated runs are behaviours of L1.tla (silent Consume steps, pinned by the observed
 channel length). A direct monitor evaluates the property on every run as well.
 """
@@ -143,6 +145,32 @@ def run(ctx):
     ctx.coverage["runs_accepted_by_tlc"] = acc
     ctx.coverage["events_recorded"] = len(events)
 
+    # ---- second recorder mode: the same scripted node served by an in-process go-ethereum rpc server
+    # (websocket) to the REAL GethL1StateProvider (abigen filterer + forwardStateUpdates) -> real client
+    ngeth = 1000 if thorough else 120
+    gres = ctx.run_engine(binary, "TestL1Record", {"traces": ngeth, "seed": ctx.seed, "rounds": 30, "geth": True,
+                                                   "trace_out": "l1geth.ndjson"}, timeout=2400)
+    gst = gres.get("stats", {})
+    if gst.get("broken_runs"):
+        raise vlib.Broken("%s geth-mode runs hit a harness timeout / quiescence failure: %s" % (gst["broken_runs"], gres.get("samples")))
+    before = len(ctx.violations)
+    ctx.absorb(gres, "l1", "TestL1Record")
+    for k, v in gst.items():  # absorb() summed them into the scripted-mode counters: keep them apart
+        if isinstance(v, (int, float)):
+            ctx.coverage[k] = ctx.coverage.get(k, 0) - v
+            ctx.coverage["geth_" + k] = v
+    if len(ctx.violations) == before and (not gst.get("setheads_checked") or not gst.get("pushes") or not gst.get("filter_chunks")):
+        raise vlib.Broken("geth-mode runs are vacuous: %s" % gst)
+    with open(os.path.join(ctx.scratch, "l1geth.ndjson")) as f:
+        gevents = [json.loads(x) for x in f if x.strip()]
+    gacc, grej = validate(ctx, gevents, "geth")
+    ctx.traces_validated += gacc
+    report_rejections(ctx, grej)
+    if not ctx.violations and gst.get("undrained_runs"):
+        raise vlib.Broken("%s geth-mode runs never reached the quiescent end (harness problem): %s" % (gst["undrained_runs"], gst))
+    ctx.coverage["geth_runs_accepted_by_tlc"] = gacc
+    events = events + gevents
+
     if ctx.violations:
         # the real runs already diverge: report that; the self-test below needs conforming runs
         return ctx.finish("model_checking", "recorded runs of the real l1.Client validated by TLC and a direct monitor")
@@ -186,6 +214,7 @@ def run(ctx):
     return ctx.finish(
         "model_checking",
         "exhaustive TLC on L1.tla; seeded scheduler scripts (mine / finalise / reorg / push / subscription failure / call "
-        "failure, catch-up chunk size in {1,2,3,10}, three poll intervals) drive the real l1.Client through a gated provider; "
+        "failure, catch-up chunk size in {1,2,3,10}, three poll intervals) drive the real l1.Client through a gated provider "
+        "and, for a smaller slice, through the real GethL1StateProvider over an in-process go-ethereum rpc server; "
         "every run is validated by TLC against L1.tla (trace validation with silent Consume) and by a direct monitor; "
         "non-trivial = the run contains at least one setL1Head whose database result was compared")
